@@ -845,7 +845,57 @@ type c15Result struct {
 	reads      int
 }
 
-const c15RunWatchdog = 90 * time.Second
+// c15StallTicks half-seconds without a byte read or a group delivered (longer than the gate watchdog) = stalled
+const c15StallTicks = 24
+
+func (r *c15Run) signature() [3]uint64 {
+	r.mu.Lock()
+	a := uint64(r.nDeliv)
+	r.mu.Unlock()
+	r.sched.mu.Lock()
+	b, c := r.sched.progress, uint64(r.sched.done)
+	r.sched.mu.Unlock()
+	return [3]uint64{a, b, c}
+}
+
+var c15ParkedStates = []string{"chan send", "chan receive", "select", "semacquire", "sync.WaitGroup.Wait", "sync.Cond.Wait", "sync.Mutex.Lock"}
+
+// c15AccumGoroutines classifies every goroutine that is inside a method of ObjectAccumulator.
+func c15AccumGoroutines() (parked, running int, hdrs []string) {
+	buf := make([]byte, 8<<20)
+	buf = buf[:runtime.Stack(buf, true)]
+	for _, g := range strings.Split(string(buf), "\n\n") {
+		if !strings.Contains(g, "accum.(*ObjectAccumulator).") {
+			continue
+		}
+		hdr := g
+		if k := strings.Index(g, "\n"); k > 0 {
+			hdr = g[:k]
+		}
+		where := "?"
+		for _, fn := range []string{"startFlusher", "sendToFlusher", "Run"} {
+			if strings.Contains(g, "accum.(*ObjectAccumulator)."+fn+"(") {
+				where = fn
+				break
+			}
+		}
+		isParked := false
+		for _, st := range c15ParkedStates {
+			if strings.Contains(hdr, "["+st) {
+				isParked = true
+			}
+		}
+		if isParked {
+			parked++
+		} else {
+			running++
+		}
+		if len(hdrs) < 6 {
+			hdrs = append(hdrs, where+" "+hdr)
+		}
+	}
+	return
+}
 
 func c15RunCase(rec *ev.Recorder, car *c15Car, c c15Case) c15Result {
 	res := c15Result{}
@@ -904,16 +954,48 @@ func c15RunCase(rec *ev.Recorder, car *c15Car, c c15Case) c15Result {
 		out.err = oa.Run(context.Background())
 	}()
 	var out ret
-	select {
-	case out = <-doneCh:
-	case <-time.After(c15RunWatchdog):
-		r.sched.abort()
-		select {
-		case out = <-doneCh:
-		case <-time.After(10 * time.Second):
-			res.inconc = fmt.Sprintf("%s: Run did not return within the watchdog (delivered %d of %d groups)", c.String(), r.nDeliv, len(exp))
+	returned := false
+	{
+		// progress-based watchdog: as long as bytes are read or groups delivered the run is alive
+		tick := time.NewTicker(500 * time.Millisecond)
+		last := r.signature()
+		idle := 0
+	wait:
+		for {
+			select {
+			case out = <-doneCh:
+				returned = true
+				break wait
+			case <-tick.C:
+				if sig := r.signature(); sig != last {
+					last, idle = sig, 0
+					continue
+				}
+				idle++
+				if idle == c15StallTicks {
+					r.sched.abort() // open every gate of the harness
+				}
+				if idle >= c15StallTicks+8 {
+					break wait
+				}
+			}
+		}
+		tick.Stop()
+	}
+	if !returned {
+		// decided by state, not by time: every gate of the harness is open, no callback is active; if every
+		// goroutine of the accumulator is parked, nothing can ever deliver the remaining groups
+		r.mu.Lock()
+		nd := r.nDeliv
+		r.mu.Unlock()
+		parked, running, hdrs := c15AccumGoroutines()
+		if parked > 0 && running == 0 && r.inCb.Load() == 0 && nd < len(exp) {
+			miss := exp[nd]
+			violate("missing-deliveries", fmt.Sprintf("deadlock: %d of %d expected groups delivered (next expected: parent %s with %d children), Run has not returned and every accumulator goroutine is parked: %s", nd, len(exp), r.describe(miss.Parent), len(miss.Children), strings.Join(hdrs, "; ")))
 			return res
 		}
+		res.inconc = fmt.Sprintf("%s: Run did not return (delivered %d of %d groups; accumulator goroutines parked=%d running=%d: %s)", c.String(), nd, len(exp), parked, running, strings.Join(hdrs, "; "))
+		return res
 	}
 	if out.pan != nil {
 		violate("panic", fmt.Sprintf("Run panicked: %v\n%s", out.pan, out.stk))
